@@ -6,6 +6,7 @@ ORD = ["dna", "text", "mdna", "miupac", "degen"]
 
 PLAN = {
     "C01": dict(
+        gen=dict(quick=[("Gen_C01", "Gen_C01.cfg")], thorough=[("Gen_C01", "Gen_C01_T.cfg")]),
         traces=[("sweep_c01", (1, 2)), ("long_c01", (1, 2)), ("c01", (1, 6)), ("c01x", (None, 1))],
         seeds=dict(quick=1, thorough=3), seeded={"c01x": False},
         mc=dict(quick=["MC_C01"]),
@@ -53,6 +54,7 @@ PLAN = {
              "histories of depth <= 3 replayed",
     ),
     "C07": dict(
+        gen=dict(quick=[("Gen_C07", "Gen_C07.cfg")], thorough=[("Gen_C07", "Gen_C07_T.cfg")]),
         traces=[("sweep_c07", (1, 2)), ("long_c07", (1, 2)), ("c07", (1, None)), ("c07all", (None, 1))],
         seeds=dict(quick=1, thorough=2),
         mc=dict(quick=["MC_C07"]),
@@ -91,6 +93,7 @@ PLAN = {
              "plus step-wise itnew/itnext interleavings (the iterator state machine)",
     ),
     "C12": dict(
+        gen=dict(quick=[("Gen_C12", "Gen_C12.cfg")], thorough=[("Gen_C12", "Gen_C12_T.cfg")]),
         traces=[("sweep_c12", (1, 2)), ("long_c12", (1, 2)), ("c12", (1, None)), ("c12all", (None, 1)), ("c12dna", (1, 1))],
         codecs={"sweep_c12": ["iupac"], "long_c12": ["iupac"], "c12": ["iupac"], "c12all": ["iupac"], "c12dna": ["dna"]},
         seeds=dict(quick=1, thorough=2),
@@ -153,6 +156,7 @@ PLAN = {
              "reversal, removals) and on k-mers of boundary / every K and storage",
     ),
     "C19": dict(
+        gen=dict(quick=[("Gen_C19", "Gen_C19.cfg")], thorough=[("Gen_C19", "Gen_C19_T.cfg")]),
         traces=[("sweep_c19", (1, 2)), ("long_c19", (1, 2)), ("c19conv", (2, 10)), ("c19trim", (5, 6))],
         codecs={"sweep_c19": ["dna"], "long_c19": ["dna"], "c19conv": ["dna"]},
         seeds=dict(quick=1, thorough=3),
@@ -162,6 +166,7 @@ PLAN = {
              "plus random long inputs",
     ),
     "C20": dict(
+        gen=dict(quick=[("Gen_C07", "Gen_C20.cfg")]),
         traces=[("sweep_c20", (1, 2)), ("long_c20", (1, 2)), ("c20", (1, None)), ("c20all", (None, 1))],
         codecs={"sweep_c20": ["mdna", "miupac"], "long_c20": ["mdna", "miupac"], "c20": ["mdna", "miupac"], "c20all": ["mdna", "miupac"]},
         seeds=dict(quick=1, thorough=2),
